@@ -4,7 +4,7 @@ CONSTANTS
   InitNames <- Names4
   InitConsts <- Consts4
   NamePool = {"a", "b"}
-  Focus = {"GAppend","GExtend","GInsertBefore","GInsertAfter","GRemove","NewNode"}
+  Focus = {"NodePrepend","NodeAppend","GAppend","GExtend","GInsertBefore","GInsertAfter","GRemove","NewNode"}
   SeedIds = {1,3,4}
   OpGraphs = {1}
   ForeignOps = {"GAppend"}
